@@ -599,13 +599,12 @@ namespace link_layer {
         // invalid LLID
         if ( ( header & 0x3 ) != 0 )
         {
+            // the NESN of the central acknowledges our last PDU, regardless of the MIC failure.
             acknowledge( header & nesn_flag );
 
-            // resent PDU?
-            if ( static_cast< bool >( header & sn_flag ) == next_expected_sequence_number_ )
-            {
-                next_expected_sequence_number_ = !next_expected_sequence_number_;
-            }
+            // next_expected_sequence_number_ must not be changed here: if this is a resent PDU, it was already
+            // acknowledged when it was received the first time. If this is a new PDU, it was not stored and
+            // acknowledging it would make the central drop a PDU that was never delivered.
         }
 
         return next_transmit();
